@@ -1,8 +1,201 @@
 /-
-Reference semantics for property C01 (under construction): a direct-style evaluator with no
-trampoline.  See `RuschmProofs/C01.lean`.
+Specification vocabulary for property C01 and the REFERENCE semantics of the core forms.
+
+`Ref.eval` is a direct-style, store-passing evaluator written from the R7RS evaluation rules
+(§4.1 primitive expression types, §5.3 definitions): there is no trampoline, no
+`TailExpressionResult`, no loop — a procedure call evaluates the operator and the operands and then
+`Ref.apply` runs the WHOLE body, the last expression included, by plain recursion.  It shares with
+the model only data-level definitions (`Store`, `lookup`/`define`/`set`, `readLiteral`,
+`evalPrim`, `procArity`, `arityOk`, `bindFixed`, `spreadApply`, `Prim.applyPure`), none of the
+control structure of `RuschmModel/Eval.lean`.
+
+The activation-depth instrumentation of the store (`depth`, `maxDepth`) is not part of the
+semantics: the reference never touches it and stores are compared after `Store.erase`.
 -/
 import RuschmModel.Eval
-namespace Ruschm.Ref
+namespace Ruschm
 
-end Ruschm.Ref
+/-- forget the activation-depth instrumentation (`depth`, `maxDepth`) -/
+def Store.erase (σ : Store) : Store := { σ with depth := 0, maxDepth := 0 }
+
+namespace Ref
+open Eval (evalPrim readLiteral procArity arityOk bindFixed spreadApply)
+
+/-! ## vocabulary: the parent chain of a frame -/
+
+/-- the frames on `ρ`'s parent chain, innermost first (`k` bounds the length) -/
+def chainAux (σ : Store) : Nat → Nat → List Nat
+  | 0, _ => []
+  | k + 1, ρ =>
+    match σ.frames[ρ]? with
+    | none => []
+    | some f => ρ :: (match f.parent with | some p => chainAux σ k p | none => [])
+
+/-- the parent chain of frame `ρ` (a chain without repetition has at most `frames.size` members) -/
+def chain (σ : Store) (ρ : Nat) : List Nat := chainAux σ σ.frames.size ρ
+
+/-- parents are older than their children (new frames are pushed at the end of the store) -/
+def ParentsOlder (σ : Store) : Prop :=
+  ∀ (i : Nat) (f : Frame) (p : Nat), σ.frames[i]? = some f → f.parent = some p → p < i
+
+/-- the binding of `x` in frame `i` itself, if any -/
+def frameBinding (σ : Store) (x : String) (i : Nat) : Option Value :=
+  (σ.frames[i]?).bind (fun f => f.defs.lookup x)
+
+/-! ## vocabulary: left-to-right evaluation of a list of expressions -/
+
+/-- the store-threading `mapM` of a one-expression evaluator `ev`: every expression is handed to
+`ev` exactly once, left to right, each in the store the previous one left; the first error stops
+the traversal and is the outcome -/
+def mapEval (ev : Store → Expr → Res Value) : Store → List Expr → Res (List Value)
+  | σ, [] => (.ok [], σ)
+  | σ, e :: es =>
+    match ev σ e with
+    | (.error er, σ₁) => (.error er, σ₁)
+    | (.ok v, σ₁) =>
+      match mapEval ev σ₁ es with
+      | (.error er, σ₂) => (.error er, σ₂)
+      | (.ok vs, σ₂) => (.ok (v :: vs), σ₂)
+
+/-- the same for a fuel-free evaluation relation `ev σ e r σ'` -/
+def MapEvals (ev : Store → Expr → Except SErr Value → Store → Prop) :
+    Store → List Expr → Except SErr (List Value) → Store → Prop
+  | σ, [], r, σ' => r = .ok [] ∧ σ' = σ
+  | σ, e :: es, r, σ' =>
+    (∃ er, ev σ e (.error er) σ' ∧ r = .error er) ∨
+    (∃ v σ₁, ev σ e (.ok v) σ₁ ∧
+      ((∃ er, MapEvals ev σ₁ es (.error er) σ' ∧ r = .error er) ∨
+       (∃ vs, MapEvals ev σ₁ es (.ok vs) σ' ∧ r = .ok (v :: vs))))
+
+/-! ## the reference evaluator -/
+
+mutual
+/-- R7RS §4.1: the value of an expression -/
+def eval : Nat → Store → Nat → Expr → Res Value
+  | 0, σ, _, _ => (.error (.fuel, none), σ)
+  | k + 1, σ, ρ, e =>
+    match e with
+    -- literals: self-evaluating constants, quotations, vector literals
+    | .prim p _ =>
+      match evalPrim p with
+      | .ok v => (.ok v, σ)
+      | .error er => (.error (er, none), σ)
+    | .quote d _ => readLiteral σ d
+    | .datum d _ => readLiteral σ d
+    -- variable reference: the innermost binding
+    | .sym s loc =>
+      match σ.lookup ρ s with
+      | some v => (.ok v, σ)
+      | none => (.error (.unbound, loc), σ)
+    -- a lambda expression evaluates to a procedure that remembers the current environment
+    | .lambda lam _ => (.ok (.closure lam ρ), σ)
+    | .assign x e _ =>
+      match eval k σ ρ e with
+      | (.error er, σ) => (.error er, σ)
+      | (.ok v, σ) =>
+        match σ.set ρ x v with
+        | (true, σ) => (.ok .void, σ)
+        | (false, σ) => (.error (.unbound, none), σ)
+    -- conditional: the test, then exactly one arm; only `#f` is false
+    | .cond t c a _ =>
+      match eval k σ ρ t with
+      | (.error er, σ) => (.error er, σ)
+      | (.ok tv, σ) =>
+        if tv.truthy then eval k σ ρ c
+        else match a with
+          | some alt => eval k σ ρ alt
+          | none => (.ok .void, σ)
+    -- procedure call: operator, operands (left to right), then the application;
+    -- a non-procedure operator is reported once the operands have been evaluated
+    | .call f args _ =>
+      match eval k σ ρ f with
+      | (.error er, σ) => (.error er, σ)
+      | (.ok fv, σ) =>
+        let (ra, σ) := evalList k σ ρ args
+        match procArity fv with
+        | none =>
+          match ra with
+          | .error (.fuel, l) => (.error (.fuel, l), σ)   -- (fuel is not an outcome)
+          | _ => (.error (.nonProcedure, f.loc), σ)
+        | some _ =>
+          match ra with
+          | .error er => (.error er, σ)
+          | .ok vs => apply k σ fv vs
+
+/-- operands, left to right, each exactly once -/
+def evalList : Nat → Store → Nat → List Expr → Res (List Value)
+  | 0, σ, _, _ => (.error (.fuel, none), σ)
+  | _ + 1, σ, _, [] => (.ok [], σ)
+  | k + 1, σ, ρ, e :: es =>
+    match eval k σ ρ e with
+    | (.error er, σ) => (.error er, σ)
+    | (.ok v, σ) =>
+      match evalList k σ ρ es with
+      | (.error er, σ) => (.error er, σ)
+      | (.ok vs, σ) => (.ok (v :: vs), σ)
+
+/-- R7RS §4.1.3/§4.1.4: apply a procedure to argument values -/
+def apply : Nat → Store → Value → List Value → Res Value
+  | 0, σ, _, _ => (.error (.fuel, none), σ)
+  | k + 1, σ, p, args =>
+    match procArity p with
+    | none => (.error (.nonProcedure, none), σ)
+    | some (fixed, variadic) =>
+      if !arityOk fixed variadic args.length then (.error (.arity, none), σ) else
+      match p with
+      -- `(apply proc arg … args)` is the call of `proc` on `arg … ++ args`
+      | .builtin .apply =>
+        match spreadApply args with
+        | .error er => (.error (er, none), σ)
+        | .ok (f, args') => apply k σ f args'
+      | .builtin b => Prim.applyPure σ b args
+      -- a closure: a new frame under the frame the lambda was evaluated in; the fixed parameters
+      -- are bound to the first arguments, the rest parameter to the list of the others; then the
+      -- internal definitions, in order, in that frame; then the body, whose last value is returned
+      | .closure lam cenv =>
+        let (ρ, σ) := σ.newFrame (some cenv)
+        match bindFixed σ ρ lam.formals.fixed args with
+        | (.error er, σ) => (.error (er, none), σ)
+        | (.ok restArgs, σ) =>
+          let σ := match lam.formals.rest with
+            | some r => σ.define ρ r (Value.ofList restArgs)
+            | none => σ
+          match evalDefs k σ ρ lam.defs with
+          | (.error er, σ) => (.error er, σ)
+          | (.ok (), σ) => evalSeq k σ ρ lam.body
+      | _ => (.error (.nonProcedure, none), σ)
+
+/-- internal definitions: each right-hand side is evaluated in the body's frame and bound there -/
+def evalDefs : Nat → Store → Nat → List Def → Res Unit
+  | 0, σ, _, _ => (.error (.fuel, none), σ)
+  | _ + 1, σ, _, [] => (.ok (), σ)
+  | k + 1, σ, ρ, (.mk x e _) :: ds =>
+    match eval k σ ρ e with
+    | (.error er, σ) => (.error er, σ)
+    | (.ok v, σ) => evalDefs k (σ.define ρ x v) ρ ds
+
+/-- a body: every expression in order, the value of the last one -/
+def evalSeq : Nat → Store → Nat → List Expr → Res Value
+  | 0, σ, _, _ => (.error (.fuel, none), σ)
+  | _ + 1, σ, _, [] => (.error (.panic "apply_scheme_procedure: empty body", none), σ)
+  | k + 1, σ, ρ, [e] => eval k σ ρ e
+  | k + 1, σ, ρ, e :: es =>
+    match eval k σ ρ e with
+    | (.error er, σ) => (.error er, σ)
+    | (.ok _, σ) => evalSeq k σ ρ es
+end
+
+/-! ## how outcomes of the model and of the reference are compared
+
+R7RS leaves the order of the checks of a procedure call unspecified.  The reference (like
+`eval_expression` for a call that is not in tail position) reports a non-procedure operator
+before an operand error and locates it at the operator; the trampoline of `apply_procedure`
+evaluates a pending tail call with `eval_procedure_call`, which reports the operand error first
+and an unlocated non-procedure error.  So the two agree exactly on every value and on every error
+except that where the reference reports `nonProcedure` the model may report that call's operand
+error, or `nonProcedure` with another location. -/
+def Agree {α} (model ref : Except SErr α) : Prop :=
+  model = ref ∨ ((∃ l, ref = .error (.nonProcedure, l)) ∧ ∃ e, model = .error e)
+
+end Ref
+end Ruschm
